@@ -71,6 +71,34 @@ func checkC06(p *Prog, r *Report) {
 			badTable++
 			rPass.Bad(fnName(a.Fn)+":admits-mismatch", a.Fn.Pos(), "state {%s}: a half whose key differs from the attached one can be attached", cp.V)
 		}
+		/* Check and registration are one critical section: between the
+		lock under which the key was compared and the stores which register
+		this half, the lock is not given up (else two halves of different
+		requests can both pass the checks before either is registered). */
+		if proxied && cp.V.expectAdmit() {
+			firstStore := -1
+			for k, t := range before {
+				if strings.HasPrefix(t, "store:") {
+					firstStore = k
+					break
+				}
+			}
+			if firstStore >= 0 {
+				locks, unlocks := 0, 0
+				for _, t := range before[:firstStore] {
+					switch t {
+					case "lock":
+						locks++
+					case "unlock":
+						unlocks++
+					}
+				}
+				if unlocks > 0 || 1 != locks {
+					badTable++
+					rPass.Bad(fnName(a.Fn)+":check-and-register-atomic", a.Fn.Pos(), "state {%s}: the lock is released between the admission checks and the registration of the half (%d lock, %d unlock before the first store): halves of different requests can pass the checks together and pair", cp.V, locks, unlocks)
+				}
+			}
+		}
 		if proxied && cp.V.expectAdmit() && 1 != countIn(before, "store:b.key=str:K") {
 			badTable++
 			rPass.Bad(fnName(a.Fn)+":stores-whole-key", a.Fn.Pos(), "state {%s}: Broker.key does not receive the caller's key itself (%s)", cp.V, strings.Join(filterPrefix(before, "store:b.key"), " "))
